@@ -67,6 +67,9 @@ IN_FOR_OUT = {'xml': 'xml', 'soap11': 'soap11', 'soap12': 'soap12',
 SITES = ['fn', 'l_call', 'l_ret', 'gen0', 'gen1', 'genend']
 ROUTES = ['wsgi', 'sb', 'client']
 LAZY = ('json', 'yaml', 'msgpack', 'msgpackrpc')
+# protocols whose spyne client can parse a response (the dict-document clients
+# answer every call with None / 404 and are not usable)
+CLIENT_PROTS = ('soap11', 'soap12', 'xml', 'msgpackrpc')
 RETURN_MARK = u'nothing to see'
 
 
@@ -80,11 +83,11 @@ def gen_cases(tier, verif_seed):
         seed = derive(ID, verif_seed, i) & 0xffffffffffff
         rng = Streams(seed)['faults']
         site, kind, out, route = cells[order[i % len(cells)]]
-        if route == 'client' and out not in SOAP_FAMILY:
+        if route == 'client' and out not in CLIENT_PROTS:
             route = 'wsgi'
         if site.startswith('gen') and route == 'sb':
             route = 'wsgi'
-        if kind == 'fault_awkward' and route == 'sb':
+        if kind == 'fault_awkward' and route in ('sb', 'client'):
             # the bare pipeline leaves a failing serialisation (also of a
             # fault) to its caller, the transport: only transports are judged
             route = 'wsgi'
@@ -331,8 +334,14 @@ def judge(case, uni, info, body, raised):
         viol('code', 'fault code %r arrived as %r' % (want[0], code))
     if (string or '').strip() != (want[1] or '').strip():
         viol('string', 'fault string %r arrived as %r' % (want[1], string))
-    has_detail_slot = out_prot != 'httprpc'
-    if has_detail_slot and _norm_detail(detail) != _norm_detail(want[2]):
+    if out_prot == 'httprpc':
+        # the text/plain fault form of HttpRpc ("code\n\nstring") has no place
+        # for the detail: one signature for the whole protocol
+        if _norm_detail(want[2]) is not None:
+            V.append({'sig': 'detail-dropped|out=httprpc', 'what': 'HttpRpc '
+                      'fault responses carry code and message only; the detail '
+                      '%r is not sent %s' % (want[2], ctx_txt)})
+    elif _norm_detail(detail) != _norm_detail(want[2]):
         viol('detail', 'fault detail %r arrived as %r' % (want[2], detail))
     # return value not sent
     if site == 'l_ret' and case['method'] in ('noargs', 'fail') and \
